@@ -9,7 +9,7 @@ META = {
              "pixels inside the image and inside the line's bounding box for ANY end points and any image size incl. empty; fill_rect "
              "writes exactly rect /\\ image; stroke_rect writes only the border ring of rect /\\ image; draw_polygon (width 1) writes only "
              "inside the image and inside the bounding box of an edge. Contours (bounded theorem, NOT the general Suzuki-Abe correctness): "
-             "for ALL binary masks up to 4x4 (every height and width 0..4, 75 000+ masks, both RetrievalModes; vm_compute over the full "
+             "for ALL binary masks up to 4x4 (every height and width 0..4: 74 963 masks, both RetrievalModes; vm_compute over the full "
              "enumeration lifted with forallb_forall, enumeration proved complete) border following terminates without exhausting its "
              "fuel or panicking, every contour point is a foreground pixel with a background/outside pixel among its 8 neighbours, and "
              "every 8-connected foreground component has a contour that stays inside it and passes through all its row/column-extreme "
@@ -24,11 +24,12 @@ META = {
     "technique": "Coq proof (loop invariant on the Bresenham error term; bounded-exhaustive vm_compute with reflection for contours) + model/implementation correspondence",
 }
 GROUP = "imageproc"
-REQ = "From RV Require Import Prelude.\nFrom ImageProc Require Import Draw Contours.\nOpen Scope Z_scope."
+REQ = "From RV Require Import Prelude.\nFrom ImageProc Require Import Draw DrawCases Contours.\nOpen Scope Z_scope."
 REQ_D = REQ + "\nNotation case := dcase (only parsing)."
 REQ_C = REQ + "\nNotation case := ccase (only parsing)."
 THEOREMS = ["C36_bresham_in_bbox", "C36_bresham_endpoints", "C36_draw_line_in_image", "C36_fill_rect_writes",
-            "C36_stroke_rect_writes", "C36_draw_polygon_in_image", "C36_nonvacuous_draw",
+            "C36_stroke_rect_writes", "C36_draw_polygon_in_image", "C36_model_satisfies_oracle", "C36_oracle_spec",
+            "C36_nonvacuous_draw",
             "C36_contours_ok_le_4x4", "C36_contours_checker_sound", "C36_nonvacuous_contours"]
 
 
